@@ -1,5 +1,5 @@
-(** * C16 — decode / encode of tile matrix set documents: witnesses about the code as it stands
-      (F6b) and the built-in documents by computation *)
+(** * C16 — decode / encode of tile matrix set documents: regressions for the repaired defects F6b / F6c
+      and the built-in documents by computation *)
 From Coq Require Import ZArith QArith String Ascii List Bool Lia.
 From Texel Require Import Tms.Json Tms.Model.
 From Texel.Gen Require Import ConstsGen TmsData.
@@ -41,23 +41,23 @@ Lemma regression_F6c : decodeTMS doc_origin3 = Error /\ decodeTMS doc_origin1 = 
   exists t, decodeTMS doc_ok = Ok t.
 Proof. repeat split; try (vm_compute; reflexivity). eexists. vm_compute. reflexivity. Qed.
 
-(** F6b: tileWidth -1 and 256.5 are accepted (wrapped to 2^64 - 1, truncated to 256) *)
-Lemma negative_width_accepted : exists t m, decodeTMS doc_negative = Ok t /\ the_tm t = Some m /\ tm_tileWidth m = 2 ^ 64 - 1.
-Proof. eexists. eexists. split; [vm_compute; reflexivity|]. split; vm_compute; reflexivity. Qed.
+(** regression F6b (repaired in /repo 4bfd034): tileWidth -1 used to be accepted as 2^64 - 1 (and came back as 2^63
+    after a round trip), 256.5 used to be truncated to 256; both are errors now, and so are 2^53 and a negative or
+    fractional member of variableMatrixWidths; 0 is an error as before; 2^53 - 1 is accepted *)
+Definition doc_huge : json := doc_with (tm_with (jn 9007199254740992 0) (JArr [jn 1 0; jn 2 0]) []).
+Definition doc_big_ok : json := doc_with (tm_with (jn 9007199254740991 0) (JArr [jn 1 0; jn 2 0]) []).
+Definition doc_zero : json := doc_with (tm_with (jn 0 0) (JArr [jn 1 0; jn 2 0]) []).
+Definition doc_vmw_neg : json :=
+  doc_with (tm_with (jn 256 0) (JArr [jn 1 0; jn 2 0])
+                    [("variableMatrixWidths", JArr [JObj [("coalesce", jn 2 0); ("minTileRow", jn (-1) 0); ("maxTileRow", jn 0 0)]])]).
+Definition doc_vmw_frac : json :=
+  doc_with (tm_with (jn 256 0) (JArr [jn 1 0; jn 2 0])
+                    [("variableMatrixWidths", JArr [JObj [("coalesce", jn 25 (-1)); ("minTileRow", jn 0 0); ("maxTileRow", jn 0 0)]])]).
 
-Lemma fractional_width_accepted : exists t m, decodeTMS doc_fraction = Ok t /\ the_tm t = Some m /\ tm_tileWidth m = 256.
-Proof. eexists. eexists. split; [vm_compute; reflexivity|]. split; vm_compute; reflexivity. Qed.
-
-(** ... and the wrapped value does not survive a round trip: 2^64 - 1 is printed, read back as the float64 2^64,
-    converted to 2^63; neither the value nor the encoding is stable *)
-Lemma wrap_not_stable : exists t t' m m',
-  decodeTMS doc_negative = Ok t /\ decodeTMS (encodeTMS t) = Ok t' /\
-  the_tm t = Some m /\ the_tm t' = Some m' /\ tm_tileWidth m = 2 ^ 64 - 1 /\ tm_tileWidth m' = 2 ^ 63 /\
-  json_eqb (encodeTMS t') (encodeTMS t) = false.
-Proof.
-  eexists. eexists. eexists. eexists. split; [vm_compute; reflexivity|]. split; [vm_compute; reflexivity|].
-  repeat split; vm_compute; reflexivity.
-Qed.
+Lemma regression_F6b : decodeTMS doc_negative = Error /\ decodeTMS doc_fraction = Error /\ decodeTMS doc_huge = Error /\
+  decodeTMS doc_zero = Error /\ decodeTMS doc_vmw_neg = Error /\ decodeTMS doc_vmw_frac = Error /\
+  exists t m, decodeTMS doc_big_ok = Ok t /\ the_tm t = Some m /\ tm_tileWidth m = 2 ^ 53 - 1.
+Proof. repeat split; try (vm_compute; reflexivity). eexists. eexists. split; [vm_compute; reflexivity|]. split; vm_compute; reflexivity. Qed.
 
 (** empty arrays under omitempty members decode to empty non-nil slices, are not printed, and come back nil:
     the two values differ only in nil vs. empty, their encodings do not *)
